@@ -1521,21 +1521,27 @@ package ast
 // theory. The snapshot functions dereference their children unguarded: that they do not panic is A-TREE (trusted_nopanic:
 // nodes below a filed node are non-nil where the grammar makes them so), not checked. A-STABLE (trusted_ensures): a node's snapshot is a function of the node - the fields that feed it are final when
 // it is first taken (the listener's filing discipline, checked in package antlr, covers the negation flags).
+// C20 (size): a snapshot counts each child's snapshot and each own string field at most once, plus a constant - by induction over
+// the tree its length, and the time and memory spent building it, are linear in the number of nodes, hence in the rule text.
+// The clause is taken from the property, not from the code: a branch that writes a child twice doubles per nesting level.
+//@ macro func snl(x Ref) int { return ite(x != nil, len(fn_GetSnapshot_0(x)), 0) }
 //@ func (e *Expression) GetSnapshot() (s)
-//@   serves C07
+//@   serves C07 C20
 //@   opt strite=1
 //@   trusted_nopanic
 //@   modifies
 //@   trusted_ensures s == fn_GetSnapshot_0(e)
+//@   checks[C20] linear: len(s) <= 24 + snl(e.SingleExpression) + snl(e.LeftExpression) + snl(e.RightExpression) + snl(e.ExpressionAtom)
 //@   checks[C07] format: s == "E(" + ite(e.SingleExpression != nil, "SE(" + ite(e.Negated, "!", "") + fn_GetSnapshot_0(e.SingleExpression) + ")", "")
 //@        + ite(e.LeftExpression != nil && e.RightExpression != nil, "EL(" + fn_GetSnapshot_0(e.LeftExpression) + ")" + opSym(e.Operator) + "ER(" + fn_GetSnapshot_0(e.RightExpression) + ")", "")
 //@        + ite(e.ExpressionAtom != nil, "EA(" + fn_GetSnapshot_0(e.ExpressionAtom) + ")", "") + ")"
 //@ func (e *ExpressionAtom) GetSnapshot() (s)
-//@   serves C07
+//@   serves C07 C20
 //@   opt strite=1
 //@   trusted_nopanic
 //@   modifies
 //@   trusted_ensures s == fn_GetSnapshot_0(e)
+//@   checks[C20] linear: len(s) <= 16 + len(e.VariableName) + snl(e.Variable) + snl(e.Constant) + snl(e.FunctionCall) + snl(e.ExpressionAtom) + snl(e.ArrayMapSelector)
 //@   checks[C07] format: s == "A(" + ite(e.Variable != nil, fn_GetSnapshot_0(e.Variable), ite(e.Constant != nil, fn_GetSnapshot_0(e.Constant),
 //@        ite(e.FunctionCall != nil && e.ExpressionAtom == nil, fn_GetSnapshot_0(e.FunctionCall),
 //@        ite(e.FunctionCall == nil && e.ExpressionAtom != nil && len(e.VariableName) == 0, ite(e.Negated, "!", "") + fn_GetSnapshot_0(e.ExpressionAtom),
@@ -1543,26 +1549,29 @@ package ast
 //@        ite(len(e.VariableName) > 0 && e.ExpressionAtom != nil, fn_GetSnapshot_0(e.ExpressionAtom) + "->MV:" + e.VariableName, ""))))))
 //@        + ite(e.ArrayMapSelector != nil && e.ExpressionAtom != nil, fn_GetSnapshot_0(e.ExpressionAtom) + "-[]>" + fn_GetSnapshot_0(e.ArrayMapSelector), "") + ")"
 //@ func (e *Variable) GetSnapshot() (s)
-//@   serves C07
+//@   serves C07 C20
 //@   opt strite=1
 //@   trusted_nopanic
 //@   modifies
 //@   trusted_ensures s == fn_GetSnapshot_0(e)
+//@   checks[C20] linear: len(s) <= 8 + len(e.Name) + snl(e.Variable) + snl(e.ArrayMapSelector)
 //@   checks[C07] format: s == "V(" + ite(len(e.Name) > 0 && e.Variable == nil, "N:" + e.Name, ite(e.Variable != nil && len(e.Name) > 0, "O:" + fn_GetSnapshot_0(e.Variable) + "->" + e.Name,
 //@        ite(e.Variable != nil && e.ArrayMapSelector != nil, "O:" + fn_GetSnapshot_0(e.Variable) + "->" + fn_GetSnapshot_0(e.ArrayMapSelector), ""))) + ")"
 //@ func (e *FunctionCall) GetSnapshot() (s)
-//@   serves C07
+//@   serves C07 C20
 //@   opt strite=1
 //@   trusted_nopanic
 //@   modifies
 //@   trusted_ensures s == fn_GetSnapshot_0(e)
+//@   checks[C20] linear: len(s) <= 8 + len(e.FunctionName) + snl(e.ArgumentList)
 //@   checks[C07] format: s == "F(n:" + e.FunctionName + ite(e.ArgumentList != nil, "," + fn_GetSnapshot_0(e.ArgumentList), "") + ")"
 //@ func (e *ArrayMapSelector) GetSnapshot() (s)
-//@   serves C07
+//@   serves C07 C20
 //@   opt strite=1
 //@   trusted_nopanic
 //@   modifies
 //@   trusted_ensures s == fn_GetSnapshot_0(e)
+//@   checks[C20] linear: len(s) <= 8 + snl(e.Expression)
 //@   checks[C07] format: s == "MAS(" + ite(e.Expression != nil, fn_GetSnapshot_0(e.Expression), "") + ")"
 // argument snapshots joined by "," (alSnap: the documented join, defined by its three unfolding equations)
 //@ extern pure func alSnap(args []*Expression, n int) string
